@@ -450,6 +450,32 @@ pub mod vfield {
     #[no_mangle] #[inline(never)] pub fn vp_vec_add_cached_identity(p: &EdwardsPoint) -> EdwardsPoint { (&ExtendedPoint::from(*p) + &CachedPoint::identity()).into() }
 }
 
+// ------------------------------------------------------------------ AVX-512 IFMA vector field kernels (unstable_avx512 build, nightly)
+#[cfg(all(curve25519_dalek_backend = "unstable_avx512", curve25519_dalek_bits = "64", nightly))]
+pub mod ifield {
+    use crate::backend::serial::u64::field::FieldElement51 as F51;
+    use crate::backend::vector::ifma::field::{F51x4Reduced as R4, F51x4Unreduced as U4};
+    #[no_mangle] #[inline(never)] pub fn vp_i_new(a: &F51, b: &F51, c: &F51, d: &F51) -> U4 { U4::new(a, b, c, d) }
+    #[no_mangle] #[inline(never)] pub fn vp_i_split(v: &U4) -> [F51; 4] { v.split() }
+    #[no_mangle] #[inline(never)] pub fn vp_i_reduce(v: &U4) -> R4 { R4::from(*v) }
+    #[no_mangle] #[inline(never)] pub fn vp_i_mul(a: &R4, b: &R4) -> U4 { a * b }
+    #[no_mangle] #[inline(never)] pub fn vp_i_square(a: &R4) -> U4 { a.square() }
+    #[no_mangle] #[inline(never)] pub fn vp_i_negate_lazy(a: &U4) -> U4 { a.negate_lazy() }
+    #[no_mangle] #[inline(never)] pub fn vp_i_diff_sum(a: &U4) -> U4 { a.diff_sum() }
+    #[no_mangle] #[inline(never)] pub fn vp_i_neg(a: &R4) -> R4 { -*a }
+    #[no_mangle] #[inline(never)] pub fn vp_i_add(a: &U4, b: &U4) -> U4 { *a + *b }
+    #[no_mangle] #[inline(never)] pub fn vp_i_mul_small(a: &R4, s0: u32, s1: u32, s2: u32, s3: u32) -> U4 { a * (s0, s1, s2, s3) }
+    use crate::backend::vector::ifma::edwards::{CachedPoint, ExtendedPoint};
+    use crate::edwards::EdwardsPoint;
+    use crate::traits::Identity;
+    #[no_mangle] #[inline(never)] pub fn vp_ivec_add(p: &EdwardsPoint, q: &EdwardsPoint) -> EdwardsPoint { (&ExtendedPoint::from(*p) + &CachedPoint::from(ExtendedPoint::from(*q))).into() }
+    #[no_mangle] #[inline(never)] pub fn vp_ivec_sub(p: &EdwardsPoint, q: &EdwardsPoint) -> EdwardsPoint { (&ExtendedPoint::from(*p) - &CachedPoint::from(ExtendedPoint::from(*q))).into() }
+    #[no_mangle] #[inline(never)] pub fn vp_ivec_double(p: &EdwardsPoint) -> EdwardsPoint { ExtendedPoint::from(*p).double().into() }
+    #[no_mangle] #[inline(never)] pub fn vp_ivec_roundtrip(p: &EdwardsPoint) -> EdwardsPoint { ExtendedPoint::from(*p).into() }
+    #[no_mangle] #[inline(never)] pub fn vp_ivec_identity() -> EdwardsPoint { ExtendedPoint::identity().into() }
+    #[no_mangle] #[inline(never)] pub fn vp_ivec_add_cached_identity(p: &EdwardsPoint) -> EdwardsPoint { (&ExtendedPoint::from(*p) + &CachedPoint::identity()).into() }
+}
+
 // ------------------------------------------------------------------ Scalar-level glue (C02, layer F for scalars)
 #[no_mangle] #[inline(never)] pub fn vp_sc_add(a: &Scalar, b: &Scalar) -> Scalar { a + b }
 #[no_mangle] #[inline(never)] pub fn vp_sc_sub(a: &Scalar, b: &Scalar) -> Scalar { a - b }
